@@ -138,6 +138,9 @@ int main(int argc, char **argv) {
       static const char *nm[] = {"directed_trivial", "directed_full", "directed_overfull", "directed_macro_cover"};
       stream = nm[mode];
     }
+    // one case in eight lives far from the origin (offset up to 2^26: binary32 holds integers only up to 2^24, and the
+    // ordering key is computed in binary32 -- the model rounds the same way, and legality must not depend on it)
+    if (i % 8 == 3) { vc::translate(c, g.range(-(1ll << 26), 1ll << 26), g.range(-(1ll << 26), 1ll << 26)); stream += "+far"; }
     // one case in three runs on an object with a past (computeRows + legalize of a perturbed circuit, then the setters)
     if (g.chance(1, 3) && c.nbCells() > 0) {
       Circuit prior = lg::genPrior(g, c);
